@@ -225,7 +225,7 @@ package packfile
 //gvc:end
 
 //gvc:func decodeOffsetByteReader
-//gvc:  props C06 C53
+//gvc:  props C06 C09 C53
 //gvc:  theory bv
 //gvc:  results off err
 //gvc:  modifies delta.#pos
@@ -235,7 +235,7 @@ package packfile
 //gvc:end
 
 //gvc:func decodeSizeByteReader
-//gvc:  props C06 C53
+//gvc:  props C06 C09 C53
 //gvc:  theory bv
 //gvc:  results sz err
 //gvc:  modifies delta.#pos
